@@ -20,7 +20,7 @@ from .. import units, guards
 
 MANIFEST = {
     "level": "other",
-    "technique": "static analysis: symbolic evaluation of the conversion functions to terms, polynomial normal form modulo sin^2+cos^2=1 (unit-norm and matrix-inverse identities), typestate for to_positive(), unit (deg/rad) inference",
+    "technique": "static analysis: symbolic evaluation of the conversion functions to terms, polynomial normal form modulo sin^2+cos^2=1 (unit-norm and matrix-inverse identities), typestate for to_positive(), unit (deg/rad) inference, effect analysis of the family (no write to arguments or module-level state)",
     "text": "Decides, from the source alone and for all real inputs at once, that each conversion is norm preserving, that each pair of conversions are inverse 3x3 matrices, that longitudes are normalised on every path, and that the separation / position-angle formulas equal the dot/cross product forms. Floating-point accuracy (1e-9) is not decided.",
     "note": "Trusted: Python ast, the term/polynomial engine (ring axioms over Q, sin^2+cos^2=1, addition theorems, tan=sin/cos), semantics of Angle read from Angle.py (checked by C03's R-OPCONF). Undecided: rounding near poles and the seam, circle_diameter bounds, antisymmetry beyond the formula identity.",
 }
@@ -237,7 +237,7 @@ def run(repo, rep, tier):
     rep.decided = ["D1 each conversion is norm preserving", "D2 conversion pairs are inverse matrices",
                    "D3 longitudes normalised on every path; latitudes from asin",
                    "D4 separation/position angle equal dot/cross product forms",
-                   "units: every trig argument in the family is in radians (R-UNITS)", "type guards (R-GUARD)"]
+                   "units: every trig argument in the family is in radians (R-UNITS)", "type guards (R-GUARD)", "no write to arguments or module-level state in the family (R-EFFECT)"]
     rep.undecided = ["1e-9 accuracy near poles/seam (rounding)", "circle_diameter bounds", "numerical symmetry"]
     rep.assumptions = ["exact real arithmetic", "Angle semantics as read from Angle.py",
                        "atan2/asin recover a direction from its unit vector (cos(lat) >= 0)"]
@@ -305,6 +305,11 @@ def run(repo, rep, tier):
     guards.check_functions(repo, rep, [(MOD, q) for pair in PAIRS for q in pair] +
                            [(MOD, "angular_separation"), (MOD, "relative_position_angle"), (MOD, "circle_diameter"),
                             (MOD, "straight_line")])
+    # the conversions must be functions of their arguments alone: no write to an argument or to module-level state (a memo of the last
+    # obliquity, say) in the family and in helpers split off from it
+    from .. import effects
+    effects.check_functions(repo, rep, [(MOD, q) for pair in PAIRS for q in pair] +
+                            [(MOD, "angular_separation"), (MOD, "relative_position_angle"), (MOD, "circle_diameter"), (MOD, "straight_line")])
     rep.floor("conversion matrices", len(mats), 6)
     return "other"
 
